@@ -212,6 +212,10 @@ func (tc *TypeCtx) leafKey(t types.Type) string {
 	}
 	switch u := t.Underlying().(type) {
 	case *types.Basic:
+		// byte/uint8 and rune/int32 are the same type: name the component by kind
+		if int(u.Kind()) < len(types.Typ) && types.Typ[u.Kind()] != nil {
+			return types.Typ[u.Kind()].Name()
+		}
 		return u.Name()
 	case *types.Pointer:
 		return "p_" + mangle(types.TypeString(u.Elem(), nil))
@@ -293,6 +297,15 @@ func (tc *TypeCtx) wf(x string, t types.Type, w string) string {
 			cs = append(cs, tc.wf(app(fmt.Sprintf("%s_f%d", s, i), x), u.Field(i).Type(), w))
 		}
 		return and(cs...)
+	case *types.Array:
+		// canonical form: zero outside [0, N); elements of integer type are in range
+		if eb, ok := u.Elem().Underlying().(*types.Basic); ok {
+			c := fmt.Sprintf("(forall ((wi Int)) (! (=> (or (< wi 0) (>= wi %d)) (= (select %s wi) %s)) :pattern ((select %s wi))))", u.Len(), x, tc.zero(u.Elem()), x)
+			if lo, hi, isInt := intRange(eb); isInt {
+				c = and(c, fmt.Sprintf("(forall ((wi Int)) (! (and (<= %s (select %s wi)) (< (select %s wi) %s)) :pattern ((select %s wi))))", bignum(lo), x, x, bignum(hi), x))
+			}
+			return c
+		}
 	}
 	return "true"
 }
@@ -390,4 +403,32 @@ func (tc *TypeCtx) boxFn(t types.Type) (box, unbox string) {
 		tc.decls = append(tc.decls, fmt.Sprintf("(declare-fun %s (Ptr) %s)", unbox, s))
 	}
 	return
+}
+
+// deepEq is Go's == on values of type t: arrays are compared on their index range only (SMT arrays are total).
+func (tc *TypeCtx) deepEq(a, b string, t types.Type) string {
+	t = types.Unalias(t)
+	if isBigInt(t) || isOpaqueStruct(t) {
+		return eq(a, b)
+	}
+	switch u := t.Underlying().(type) {
+	case *types.Array:
+		// array values are canonical (zero outside their index range, see wf), so SMT equality is Go equality
+		if u.Len() <= 0 {
+			var cs []string
+			for i := int64(0); i < u.Len(); i++ {
+				cs = append(cs, tc.deepEq(app("select", a, num(i)), app("select", b, num(i)), u.Elem()))
+			}
+			return and(cs...)
+		}
+	case *types.Struct:
+		s := tc.sortOf(t)
+		var cs []string
+		for i := 0; i < u.NumFields(); i++ {
+			f := fmt.Sprintf("%s_f%d", s, i)
+			cs = append(cs, tc.deepEq(app(f, a), app(f, b), u.Field(i).Type()))
+		}
+		return and(cs...)
+	}
+	return eq(a, b)
 }
